@@ -55,7 +55,8 @@ Hypothesis H0form : forall c, S c -> is_formula w c = true -> built (getc s0 c) 
 Record cinv (st : state) : Prop := {
   ci_built : forall c, built (getc st c) = built (getc s0 c);
   ci_comp : forall c, memb c (computed (tr st)) = true ->
-              S c /\ is_formula w c = true /\ wip (getc st c) = false;
+              S c /\ is_formula w c = true /\ wip (getc st c) = false /\
+              built (getc st c) = true /\ value (getc st c) <> None;
   ci_wip : forall c, wip (getc st c) = true -> S c /\ is_formula w c = true;
   ci_same : forall c, memb c (computed (tr st)) = false -> wip (getc st c) = false ->
               getc st c = getc s0 c;
@@ -143,8 +144,8 @@ Proof.
         - intros c'. destruct (Nat.eq_dec c c') as [<-|Hne].
           + rewrite G0. cbn [built]. apply (ci_built st I).
           + rewrite G1 by exact Hne. apply (ci_built st I).
-        - intros c' Hm. rewrite tr_start in Hm. destruct (ci_comp st I c' Hm) as (H1 & H2 & H3).
-          destruct (Nat.eq_dec c c') as [<-|Hne]; [congruence|]. rewrite G1 by exact Hne. auto.
+        - intros c' Hm. rewrite tr_start in Hm. destruct (ci_comp st I c' Hm) as (H1 & H2 & H3 & H4 & H5).
+          destruct (Nat.eq_dec c c') as [<-|Hne]; [congruence|]. rewrite G1 by exact Hne. repeat split; auto.
         - intros c' Hw. destruct (Nat.eq_dec c c') as [<-|Hne]; [auto|].
           rewrite G1 in Hw by exact Hne. apply (ci_wip st I); exact Hw.
         - intros c' Hm Hw. rewrite tr_start in Hm. destruct (Nat.eq_dec c c') as [<-|Hne].
@@ -180,7 +181,8 @@ Proof.
            ++ rewrite G3. cbn [built]. apply (ci_built s2 I2).
            ++ rewrite G4 by exact Hne. apply (ci_built s2 I2).
         -- intros c' Hm. rewrite T3 in Hm. destruct (Nat.eq_dec c c') as [<-|Hne].
-           ++ rewrite G3. cbn [wip]. auto.
+           ++ rewrite G3. cbn [wip built value]. repeat split; auto; [|discriminate].
+              rewrite (ci_built s2 I2), <- (ci_built st I). exact B.
            ++ rewrite memb_add_other in Hm by auto. rewrite G4 by exact Hne. apply (ci_comp s2 I2); auto.
         -- intros c' Hw. destruct (Nat.eq_dec c c') as [<-|Hne].
            ++ rewrite G3 in Hw. discriminate.
@@ -241,6 +243,7 @@ Lemma cone_pass : forall w xs q E,
   evaluate_pass w t (inc_iteration s) = Ok (v, s') ->
   (forall c, In c (computed (tr s')) <-> reach w t c /\ is_formula w c = true) /\
   (forall c, In c (computed (tr s')) ->
+             built (getc s' c) = true /\ value (getc s' c) <> None /\
              prev (getc s' c) = value (getc s c) /\
              dist xs c (value (getc s' c)) <= q * E) /\
   (forall c, ~ In c (computed (tr s')) -> getc s' c = getc s c) /\
@@ -279,7 +282,8 @@ Proof.
     destruct (memb c (computed (tr s'))) eqn:M; auto. exfalso. apply Hc, memb_In, M. }
   split; [exact Hcomp|]. split; [|split; [exact Hsame|split; [|split]]].
   - intros c Hc. pose proof Hc as Hc'. apply memb_In in Hc.
-    split.
+    destruct (ci_comp _ _ _ _ _ _ _ I1 c Hc) as (_ & _ & _ & Hb & Hs).
+    split; [exact Hb|]. split; [exact Hs|]. split.
     + rewrite (ci_prev _ _ _ _ _ _ _ I1 c (or_introl Hc)). rewrite G0. reflexivity.
     + apply (ci_num _ _ _ _ _ _ _ I1); exact Hc.
   - apply eval_cell_readv in Ev. rewrite Ev. unfold readv. rewrite Wn'. reflexivity.
